@@ -462,6 +462,14 @@ type AssignsItem struct {
 	Field string
 }
 
+// keySpec is the readKeys form of a type-level item: T::field, elems[T] or map[K]V
+func (it AssignsItem) keySpec() string {
+	if strings.HasPrefix(it.TypeT, "elems[") || strings.HasPrefix(it.TypeT, "map[") {
+		return it.TypeT
+	}
+	return it.TypeT + "::" + it.Field
+}
+
 type CallbackSpec struct {
 	Param    string
 	Args     []string
@@ -630,6 +638,11 @@ func ParseSpecFile(path string, data []byte, defaultPkg string) (*SpecFile, erro
 			}
 			if strings.HasPrefix(part, "effects(") && strings.HasSuffix(part, ")") {
 				items = append(items, AssignsItem{Callback: strings.TrimSpace(part[8 : len(part)-1]), Text: part})
+				continue
+			}
+			if strings.HasPrefix(part, "elems[") || strings.HasPrefix(part, "map[") {
+				// type-level: all elements of slices of T / all entries of maps of that type
+				items = append(items, AssignsItem{TypeT: part, Text: part})
 				continue
 			}
 			if i := strings.Index(part, "::"); i >= 0 {
